@@ -39,6 +39,11 @@ Theorem C03_rect_shade_turns : forall dev e az tilt origin w h,
               (map (rotz (cw e)) (rect_shade_corners dev az tilt origin w h)).
 Proof. exact rect_shade_turns. Qed.
 
+Theorem C03_poly_wall_turns : forall dev e s az tilt w poly,
+  Forall2 veq (poly_wall_corners (compose dev e) s az tilt w poly)
+              (map (rotz (cw e)) (poly_wall_corners dev s az tilt w poly)).
+Proof. exact poly_wall_turns. Qed.
+
 Theorem C03_turns_compose : forall a b p, veq (rotz a (rotz b p)) (rotz (compose a b) p).
 Proof. exact rotz_compose. Qed.
 
